@@ -418,7 +418,7 @@ impl<'ast> syn::visit::Visit<'ast> for Calls {
   }
 }
 
-fn push_arg_json(arg: &str) -> Value {
+pub fn push_arg_json(arg: &str) -> Value {
   // "lit" | &request.path.<f>.to_string() | &format!("x-{}",request.path.<f>)
   if arg.starts_with('"') {
     if let Ok(l) = syn::parse_str::<syn::LitStr>(arg) {
